@@ -139,7 +139,7 @@ impl Module for M {
          mono_text_style.rs draw_whitespace -> fill_solid, draw_whitespace -> draw_decorations, draw_decorations -> fill_solid x2), \
          faults.clear (clear through every adapter stack, with and without color_converted on top, on both targets: translated.rs \
          clear -> clear, color_converted.rs clear -> clear, core/src/draw_target/mod.rs clear -> fill_solid [the trait default of the \
-         draw_iter-only target, of Clipped and of Cropped]). Non-trivial: the fault-free run makes at least 2 calls; distinct = op text."
+         draw_iter-only target, of Clipped and of Cropped]). Model side (n = length of the model's call list): every stream except faults.dotted. Non-trivial: the fault-free run makes at least 2 calls; distinct = op text."
     }
 
     fn generate(&self, _pid: &str, tier: Tier, rng: &mut Rng, emit: &mut dyn FnMut(String)) {
